@@ -19,7 +19,7 @@ def at' (l : List R) (op : Op) : R := l.getD op.idx .other
 def atL (l : List (List String)) (op : Op) : List String := l.getD op.idx ["?"]
 
 /-- the supplied functions are partial and the payload classes differ: calling one raises -/
-def fnsRaise (c : Case) : Bool := c.partialFns && c.rhs != .same
+def fnsRaise (c : Case) : Bool := c.partialFns && c.rhs != .same && c.rhs != .identical
 
 /-- what calling the supplied function `r` on the two payloads gives -/
 def expectedFn (c : Case) (r : Rel) : R := if fnsRaise c then .raised else r.eval c.a c.b
@@ -35,7 +35,7 @@ def consistent (c : Case) : Bool :=
 /-- the payload types match, or no match is required -/
 def comparable (c : Case) : Bool :=
   match c.rhs with
-  | .same => true
+  | .same | .identical => true
   | .sub | .otherType => !c.requireSameType
   | .foreign => false
 
@@ -85,7 +85,8 @@ def spec (c : Case) (o : Obs) : Bool :=
          at' o.ops .eq == .F && at' o.ops .ne == .T &&
          [Op.lt, Op.le, Op.gt, Op.ge].all (fun op => at' o.ops op == .typeError))
 
-def wf (_ : Case) : Bool := true
+/-- the identical operand holds the left operand's value -/
+def wf (c : Case) : Bool := c.rhs != .identical || c.a == c.b
 def known (_ : Case) : List String := []
 
 def check : Check Case Obs := { model := model, spec := spec, wf := wf, known := known }
